@@ -859,8 +859,10 @@ pub fn suite_fault(out: &mut Out, tier: &str, rng: &mut Rng) {
     };
     for t in unknown_types {
         // the second AVP carries the unknown type; the base has a Host Name there with the same payload
+        // (or, with an empty payload, a Sequencing Required AVP -- the only kind that may be empty)
         let mt = enc_avp(&gen_message_type(rng));
-        let p = rng.rbytes(1, 8);
+        let empty = rng.chance(1, 3);
+        let p = if empty { vec![] } else { rng.rbytes(1, 8) };
         let extra = if rng.bool() { enc_avp(&gen_avp(rng, 8)) } else { vec![] };
         let mk = |ty: u16| {
             let mut b = mt.clone();
@@ -869,7 +871,7 @@ pub fn suite_fault(out: &mut Out, tier: &str, rng: &mut Rng) {
             b
         };
         let i = ids(rng);
-        emit(out, ctl(&mk(7), i), ctl(&mk(t), i), "UnknownAvp", t as u32, &strict);
+        emit(out, ctl(&mk(if empty { 39 } else { 7 }), i), ctl(&mk(t), i), "UnknownAvp", t as u32, &strict);
     }
     let codes: Vec<u16> = {
         let mut v = vec![0u16, 5, 13, 17, 18, 255, 256, 65535];
@@ -996,6 +998,15 @@ pub fn suite_threads(out: &mut Out, tier: &str, rng: &mut Rng) {
                     let recs = random_record(rng);
                     calls.push(json!({"op": "decode_avps", "in": bytes_json(&recs), "rdr": "slice", "id": 0}));
                 }
+            }
+            if j % 6 == 0 {
+                let t = KINDS[rng.below(KINDS.len() as u64) as usize].0;
+                calls.push(json!({"op": "reveal", "v": {"k": "Hidden", "f": [t, bytes_json(&rng.bytes(32))]},
+                                  "secret": bytes_json(&rng.rbytes(0, 9)), "rv": bytes_json(&rng.bytes(4)), "id": 0}));
+                let ki = rng.below(KINDS.len() as u64) as usize;
+                let lp = rng.rbytes(0, 30);
+                calls.push(json!({"op": "hide", "v": gen_avp_kind(rng, ki, 20), "secret": bytes_json(&rng.rbytes(0, 9)),
+                                  "rv": bytes_json(&rng.bytes(4)), "lp": bytes_json(&lp), "ap": bytes_json(&rng.bytes(16)), "id": 0}));
             }
         }
         for _ in 0..6 {
@@ -1216,6 +1227,17 @@ pub fn suite_history(out: &mut Out, tier: &str, rng: &mut Rng) {
                     let m = gen_control(rng, 4, 20);
                     calls.push(json!({"op": "roundtrip", "kind": "msg", "v": m, "id": 0}));
                 }
+            }
+            if j % 5 == 0 {
+                // reveals that fail in different ways (wrong key, empty, misaligned), then a hide
+                let t = KINDS[rng.below(KINDS.len() as u64) as usize].0;
+                let n = *rng.pick(&[0usize, 5, 16, 16, 32, 32, 48]);
+                calls.push(json!({"op": "reveal", "v": {"k": "Hidden", "f": [t, bytes_json(&rng.bytes(n))]},
+                                  "secret": bytes_json(&rng.rbytes(0, 9)), "rv": bytes_json(&rng.bytes(4)), "id": 0}));
+                let ki = rng.below(KINDS.len() as u64) as usize;
+                let lp = rng.rbytes(0, 30);
+                calls.push(json!({"op": "hide", "v": gen_avp_kind(rng, ki, 20), "secret": bytes_json(&rng.rbytes(0, 9)),
+                                  "rv": bytes_json(&rng.bytes(4)), "lp": bytes_json(&lp), "ap": bytes_json(&rng.bytes(16)), "id": 0}));
             }
         }
         // the same octets under lax and then strict options, adjacent in the even rounds and apart in the
